@@ -1,7 +1,9 @@
 """C20 generator: structured function / lambda texts over the grammar of the
 property (parameters with defaults and annotations, docstrings, comments in
 leading / trailing / last-line position, nested defs / lambdas / classes,
-comprehensions, multi-line expressions, decorators, one-line and block bodies,
+nested DECORATED defs (inner functions decorated by decorators defined earlier in the
+same body or by a builtin, @property / @staticmethod / @classmethod methods of a nested
+class; see DefGen.nested_decorated), comprehensions, multi-line expressions, decorators, one-line and block bodies,
 arbitrary indentation, lambdas embedded in assignments and calls), their
 rendering, the token positions they have by construction, and a Python mirror of
 the stored text under rename / doc edits.
@@ -120,6 +122,128 @@ class DefGen:
             return self.r.choice(["  ", " ", "\t", ""]) + self.comment()
         return ""
 
+    # ---- nested *decorated* definitions ----
+    # Every group is self-contained (the decorator is a builtin or defined earlier in the same
+    # body) and built so that LOSING a nested decorator is visible in the value:
+    #   @property method   -> read as an attribute and added to an int (bound method + int: TypeError)
+    #   @staticmethod      -> called on an INSTANCE (one positional argument too many: TypeError)
+    #   @classmethod       -> called on the CLASS (one positional argument missing: TypeError)
+    #   @property function -> called through .fget (AttributeError)
+    #   body-defined decorators wrap the result in a strictly increasing map (+7, +n+1, 2*abs+1)
+    def _deco_lines(self, level, exprs):
+        """decorator lines for the decorator expressions [exprs] (layout variety)"""
+        r = self.r
+        out = []
+        for i, e in enumerate(exprs):
+            c = r.random()
+            if c < 0.12 and e.endswith(")"):
+                # call spread over several lines
+                out.append(Line("code", level, "@" + e[:e.index("(") + 1] + self.maybe_tc(0.3)))
+                out.append(Line("raw", r.choice(["", "   ", "\t", "                "]), e[e.index("(") + 1:-1] + ","))
+                out.append(Line("code", level, ")"))
+                self.feat.add("nested_multiline_decorator")
+            elif c < 0.2:
+                out.append(Line("code", level, "@ " + e))
+            else:
+                out.append(Line("code", level, "@" + e + self.maybe_tc(0.2)))
+            if i < len(exprs) - 1 and r.random() < 0.2:
+                out.append(Line("code", level, self.comment()) if r.random() < 0.6 else Line("blank", r.choice(["", "  "])))
+        if r.random() < 0.12:
+            out.append(Line("code", level, self.comment()) if r.random() < 0.6 else Line("blank", r.choice(["", "    "])))
+        return out
+
+    def nested_decorated(self, env, level, fresh):
+        """Lines of a statement group that defines a nested decorated def / method and assigns
+        an int computed through it to [fresh]."""
+        r = self.r
+        out = []
+        c = r.random()
+        if c < 0.5:
+            self.feat.add("nested_decorated_def")
+            avail = []
+            for kind in r.sample(["wrap", "lam", "factory"], r.choice([1, 1, 2])):
+                if kind == "wrap":
+                    out.append(Line("code", level, "def dec_(f):%s" % self.maybe_tc()))
+                    out.append(Line("code", level + 1, "def wrap_(*a, **k):"))
+                    out.append(Line("code", level + 2, "return f(*a, **k) + 7"))
+                    out.append(Line("code", level + 1, "return wrap_"))
+                    avail.append("dec_")
+                elif kind == "lam":
+                    out.append(Line("code", level, "dl_ = lambda f: (lambda *a: 2 * abs(f(*a)) + 1)%s" % self.maybe_tc()))
+                    avail.append("dl_")
+                else:
+                    out.append(Line("code", level, "def mk_(n):"))
+                    out.append(Line("code", level + 1, "return lambda f: (lambda *a: f(*a) + n + 1)"))
+                    avail.append("mk_(%d)" % r.randint(0, 5))
+                if r.random() < 0.15:
+                    out.append(Line("blank", r.choice(["", "    "])))
+            exprs = [r.choice(avail) for _ in range(r.choice([1, 1, 1, 2, 3]))]
+            if len(exprs) > 1:
+                self.feat.add("nested_stacked_decorators")
+            inner = r.choice(["inner", "helper", "def_inner", "foo"])
+            # the decorated def sits directly in the body or one block deeper
+            deeper = r.random() < 0.2
+            lv = level
+            if deeper:
+                out.append(Line("code", level, "if g2 > 0:"))    # g2 >= 1 by construction
+                self.feat.add("global_ref")
+                lv = level + 1
+            out += self._deco_lines(lv, exprs)
+            out.append(Line("code", lv, "def %s(p, q=%d):%s" % (inner, r.randint(0, 4), self.maybe_tc())))
+            if r.random() < 0.3:
+                out.append(Line("code", lv + 1, r.choice(['"""inner doc"""', "'inner'", '"""@not_a_decorator"""'])))
+            out.append(Line("code", lv + 1, "return p * q + %s" % self.expr(env, 1)))
+            if r.random() < 0.2:
+                out.append(Line("code", lv + 1, self.comment()))
+            out.append(Line("code", lv, "%s = %s(%s)" % (fresh, inner, self.expr(env, 1))))
+            if deeper:
+                out.append(Line("code", level, "else:"))
+                out.append(Line("code", level + 1, "%s = 0" % fresh))
+        elif c < 0.62:
+            # builtin decorator on an inner function (may be the first statement of the body)
+            self.feat.add("nested_property_function")
+            inner = r.choice(["inner", "helper", "pf_"])
+            out += self._deco_lines(level, ["property"])
+            out.append(Line("code", level, "def %s(p):%s" % (inner, self.maybe_tc())))
+            out.append(Line("code", level + 1, "return p + %s" % self.expr(env, 1)))
+            out.append(Line("code", level, "%s = %s.fget(%s)" % (fresh, inner, self.expr(env, 1))))
+        else:
+            self.feat.add("nested_class_decorators")
+            out.append(Line("code", level, "class K_:%s" % self.maybe_tc()))
+            if r.random() < 0.3:
+                out.append(Line("code", level + 1, '"""class doc"""'))
+            out.append(Line("code", level + 1, "z_ = %d" % r.randint(0, 5)))
+            meths = r.sample(["prop", "static", "cls", "plain"], r.choice([1, 2, 2, 3, 4]))
+            if meths == ["plain"]:
+                meths = ["plain", r.choice(["prop", "static", "cls"])]
+            uses = []
+            for mth in meths:
+                if r.random() < 0.25:
+                    out.append(Line("blank", r.choice(["", "    "])))
+                if mth == "prop":
+                    out += self._deco_lines(level + 1, ["property"])
+                    out.append(Line("code", level + 1, "def pv(self):%s" % self.maybe_tc()))
+                    out.append(Line("code", level + 2, "return self.z_ + %s" % self.atom(env)))
+                    uses.append("K_().pv")
+                elif mth == "static":
+                    out += self._deco_lines(level + 1, ["staticmethod"])
+                    out.append(Line("code", level + 1, "def sm(p, q=%d):" % r.randint(0, 3)))
+                    out.append(Line("code", level + 2, "return p * 2 - q + %s" % self.atom(env)))
+                    uses.append("K_().sm(%s)" % self.expr(env, 1))
+                elif mth == "cls":
+                    out += self._deco_lines(level + 1, ["classmethod"])
+                    out.append(Line("code", level + 1, "def cm(cls, p):"))
+                    out.append(Line("code", level + 2, "return cls.z_ * p + %s" % self.atom(env)))
+                    uses.append("K_.cm(%s)" % self.expr(env, 1))
+                else:
+                    out.append(Line("code", level + 1, "def m(self, p):"))
+                    out.append(Line("code", level + 2, "return p + self.z_ + %s" % self.atom(env)))
+                    uses.append("K_().m(%s)" % self.expr(env, 1))
+            out.append(Line("code", level, "%s = %s" % (fresh, " + ".join(uses))))
+        if (fresh, "int") not in env:
+            env.append((fresh, "int"))
+        return out
+
     # ---- statements ----
     def block(self, env, level, budget):
         """list of Line; env is extended in place with new int locals"""
@@ -178,6 +302,8 @@ class DefGen:
                 out.append(Line("code", level, "%s = %s" % (fresh, self.atom(env))))
                 out.append(Line("code", level, "for i_ in range(%d):" % r.randint(0, 3)))
                 out.append(Line("code", level + 1, "%s += i_ * %s" % (fresh, self.atom(env))))
+            elif c < 0.74 and r.random() < 0.5:
+                out += self.nested_decorated(env, level, fresh)
             elif c < 0.74:
                 self.feat.add("nested_def")
                 inner = r.choice(["inner", "helper", "def_inner", "foo"])
@@ -194,6 +320,8 @@ class DefGen:
                 self.feat.add("nested_lambda")
                 out.append(Line("code", level, "h_ = lambda p, q=%d: p - q + %s%s" % (r.randint(0, 4), self.atom(env), self.maybe_tc())))
                 out.append(Line("code", level, "%s = h_(%s)" % (fresh, self.expr(env, 1))))
+            elif c < 0.88 and r.random() < 0.4:
+                out += self.nested_decorated(env, level, fresh)
             elif c < 0.88:
                 self.feat.add("nested_class")
                 out.append(Line("code", level, "class K_:%s" % self.maybe_tc()))
@@ -384,9 +512,17 @@ class DefGen:
                 info["doc_nlines"] = n
                 rest += dl
                 rest += self.block(env, 1, 4)
+                if r.random() < 0.3:
+                    rest += self.nested_decorated(env, 1, "nd_")
             else:
                 info["doc_nlines"] = 0
-                blk = self.block(env, 1, 4)
+                # a nested decorated definition before / after the random statements (the group starts
+                # with a code line, never with a comment; it only reads names bound before it)
+                nd = r.choice(["first", "last", "last"]) if r.random() < 0.3 else None
+                blk = self.nested_decorated(env, 1, "nd_") if nd == "first" else []
+                blk += self.block(env, 1, 4)
+                if nd == "last":
+                    blk += self.nested_decorated(env, 1, "nd_")
                 # comment / blank lines at the start of the block precede the first statement
                 j = 0
                 while j < len(blk) and (blk[j].kind == "blank" or blk[j].b.startswith("#")):
